@@ -98,12 +98,19 @@ func (g *Grammar) GoSource(prefix string) string {
 		if embed > len(p.Fields) {
 			embed = len(p.Fields)
 		}
+		embName := name + "Emb"
 		if embed > 0 {
 			fmt.Fprintf(&sb, "type %sEmb struct {\n", name)
 			for fi := 0; fi < embed; fi++ {
 				sb.WriteString(field(fi))
 			}
 			sb.WriteString("}\n")
+			// one to three levels of embedding (derived from the production, so that a case replays the same way)
+			for lvl := 2; lvl <= 1+(len(p.Fields)+i)%3; lvl++ {
+				next := fmt.Sprintf("%sEmb%d", name, lvl)
+				fmt.Fprintf(&sb, "type %s struct {\n\t%s\n}\n", next, embName)
+				embName = next
+			}
 		}
 		fmt.Fprintf(&sb, "type %s struct {\n", name)
 		switch p.PosStyle {
@@ -123,7 +130,7 @@ func (g *Grammar) GoSource(prefix string) string {
 			sb.WriteString("\tTokens []lexer.Token\n")
 		}
 		if embed > 0 {
-			fmt.Fprintf(&sb, "\t%sEmb\n", name)
+			fmt.Fprintf(&sb, "\t%s\n", embName)
 		}
 		for fi := embed; fi < len(p.Fields); fi++ {
 			sb.WriteString(field(fi))
